@@ -8,6 +8,7 @@ use std::path::{Path, PathBuf};
 use std::time::Instant;
 
 const DIRS: [&str; 5] = ["", "sub", "sub/deep", "lib", "lib2"];
+const EXTRA_DIRS: [&str; 2] = ["lib/deep", "lib2/deep"];
 
 #[derive(Clone, Debug)]
 struct FileSpec {
@@ -71,6 +72,21 @@ fn gen_proj(t: &mut Tape) -> Proj {
         let target = t.below(n);
         symlinks.push((format!("link{}.circom", symlinks.len()), target));
     }
+    // libraries
+    let mut libs = Vec::new();
+    if t.chance(170) {
+        libs.push("lib".to_string());
+    }
+    if t.chance(90) {
+        libs.push("lib2".to_string());
+    }
+    if t.chance(60) {
+        let j = t.below(n);
+        libs.push(files[j].rel.clone());
+    }
+    if t.chance(40) {
+        libs.reverse();
+    }
     // includes
     for i in 0..n {
         let k = t.below(4);
@@ -94,9 +110,15 @@ fn gen_proj(t: &mut Tape) -> Proj {
                                 format!("../{}/{}", from_dir.rsplit('/').next().unwrap_or(""), base)
                             }
                         }
-                        2 | 3 if tdir == "lib" || tdir == "lib2" => {
-                            // bare name, to be found through -L
-                            target.rsplit('/').next().unwrap_or("").to_string()
+                        2 | 3 if tdir == "lib" || tdir == "lib2" || libs.contains(&target) => {
+                            // bare name, to be found through -L (directory or file); below a library
+                            // directory also through a detour that needs canonicalisation
+                            let bare = target.rsplit('/').next().unwrap_or("").to_string();
+                            if (tdir == "lib" || tdir == "lib2") && t.chance(90) {
+                                format!("deep/../{bare}")
+                            } else {
+                                bare
+                            }
                         }
                         _ => base,
                     }
@@ -104,21 +126,6 @@ fn gen_proj(t: &mut Tape) -> Proj {
             };
             files[i].includes.push(spelled);
         }
-    }
-    // libraries
-    let mut libs = Vec::new();
-    if t.chance(170) {
-        libs.push("lib".to_string());
-    }
-    if t.chance(90) {
-        libs.push("lib2".to_string());
-    }
-    if t.chance(60) {
-        let j = t.below(n);
-        libs.push(files[j].rel.clone());
-    }
-    if t.chance(40) {
-        libs.reverse();
     }
     // named files
     let mut named = Vec::new();
@@ -156,7 +163,7 @@ fn file_source(f: &FileSpec) -> String {
 }
 
 fn materialise(root: &Path, p: &Proj) -> Result<(), Bad> {
-    for d in DIRS {
+    for d in DIRS.iter().chain(EXTRA_DIRS.iter()) {
         std::fs::create_dir_all(root.join(d)).map_err(|e| Bad::new(format!("INFRA mkdir: {e}")))?;
     }
     for f in &p.files {
